@@ -78,6 +78,7 @@ static int      g_log_fd = -1;
 static char     g_src_suffix[64] = ".pdl";
 static unsigned char g_fdclass[1024]; /* 0 unknown, 1 source, 2 sink */
 static long     g_cnt_getrandom, g_cnt_clock, g_cnt_getpid;
+static int      g_tty_mask = -1;     /* -1: real answer; else bit fd (0..2) set = that descriptor is a terminal */
 
 static long raw_write(int fd, const void *b, size_t n) { return syscall(SYS_write, fd, b, n); }
 
@@ -158,6 +159,7 @@ static void load_plan(const char *path) {
         else if (!strcmp(k, "heap_shift")) heap_shift = atol(v);
         else if (!strcmp(k, "mmap_shift")) mmap_shift = atol(v);
         else if (!strcmp(k, "soft_budget")) g_soft_left = atol(v);
+        else if (!strcmp(k, "tty")) g_tty_mask = atoi(v);
         else if (!strcmp(k, "src_suffix")) { strncpy(g_src_suffix, v, sizeof g_src_suffix - 1); }
         else if (!strcmp(k, "log")) { strncpy(logpath, v, sizeof logpath - 1); }
     }
@@ -300,6 +302,18 @@ int uname(struct utsname *u) {
 }
 
 /* ---------- fd classification ---------- */
+/* what kind of object the standard descriptors are attached to (console vs file/pipe) */
+int isatty(int fd) {
+    if (g_active && g_tty_mask >= 0 && fd >= 0 && fd <= 2) {
+        logline("isatty", fd, (g_tty_mask >> fd) & 1, 0);
+        if ((g_tty_mask >> fd) & 1) return 1;
+        errno = ENOTTY;
+        return 0;
+    }
+    char tio[64];
+    return syscall(SYS_ioctl, fd, 0x5401 /* TCGETS */, tio) == 0;
+}
+
 static int has_suffix(const char *s, const char *suf) {
     size_t a = strlen(s), b = strlen(suf);
     return a >= b && !strcmp(s + a - b, suf);
